@@ -202,7 +202,11 @@ def project(path):
             if ev.label == 'trylocked' and ev.outcome == 'Some':
                 # the guard token is the Some-payload of the try call
                 d = ev.val
-                tok = ('field', ('downcast', d[1], 'Some'), '0')
+                src_ = d[1]
+                if src_[0] == 'call' and src_[2] == 'std::ops::Try::branch':
+                    from mir import try_operand
+                    src_ = try_operand(src_)  # `try_acquire_internal(..)?`
+                tok = ('field', ('downcast', src_, 'Some'), '0')
                 e = add('TRYLOCK', ev, guard=tok)
                 sid = sec_counter[0]
                 sec_counter[0] += 1
